@@ -481,4 +481,4 @@ def st_program(ctx: Ctx):
     return st.tuples(start, rest).map(lambda t: {"ops": t[0] + t[1]})
 
 
-PARTS = [Part("programs", check_program, strategy=st_program, quick=1600, thorough=64000)]
+PARTS = [Part("programs", check_program, strategy=st_program, quick=3200, thorough=96000)]
